@@ -55,13 +55,20 @@ impl DVec {
     pub fn as_slice(&self) -> (r: &[f64]) ensures r@ == self@ { unimplemented!() }
 }
 
-// levenberg-marquardt report: only `report.termination.was_successful()` is read
-#[verifier::external_body] pub struct TerminationReason { _p: [u8; 0] }
+// levenberg-marquardt 0.14 report types, mirrored variant by variant so that code that matches on the termination reason
+// still goes through the verifier; was_successful() is the crate's `matches!(self, ResidualsZero | Orthogonal | Converged{..})`.
+// NOTHING is assumed about which reason the driver reports.
+pub enum TerminationReason {
+    User(&'static str), Numerical(&'static str), ResidualsZero, Orthogonal, Converged { ftol: bool, xtol: bool },
+    NoImprovementPossible(&'static str), LostPatience, NoParameters, NoResiduals, WrongDimensions(&'static str),
+}
 impl TerminationReason {
     #[verifier::external_body]
-    pub fn was_successful(&self) -> (r: bool) { unimplemented!() }
+    pub fn was_successful(&self) -> (r: bool)
+        ensures r == (*self is ResidualsZero || *self is Orthogonal || *self is Converged)
+    { unimplemented!() }
 }
-pub struct MinimizationReport { pub termination: TerminationReason }
+pub struct MinimizationReport { pub termination: TerminationReason, pub number_of_evaluations: usize, pub objective_function: f64 }
 pub struct LevenbergMarquardt { _p: u8 }
 impl LevenbergMarquardt {
     #[verifier::external_body]
